@@ -372,8 +372,9 @@ SHAPES_FOR_POST = {
     'assocObjects': ['assoc_insts', 'assoc_classes', 'void', 'empty'],
     'assocNames': ['assoc_inames', 'assoc_cnames', 'void', 'empty'],
     'execQuery': [],          # VALUE.OBJECT results: via the mock only (ExecQuery is NOT_SUPPORTED there)
-    'pullInsts': ['pull_insts', 'pull_insts', 'pull_nopath'],
-    'pullPaths': ['pull_inames'],
+    'pullInstsPath': ['pull_insts', 'pull_insts', 'pull_insts', 'pull_nopath', 'pull_inames'],
+    'pullInsts': ['pull_nopath', 'pull_nopath', 'pull_insts', 'pull_inames'],
+    'pullPaths': ['pull_inames', 'pull_inames', 'pull_inames', 'pull_nopath'],
     'openQuery': ['pull_nopath'],
     'enumClasses': ['classes', 'classes', 'empty', 'void'],
     'classNames': ['cnames', 'cnames', 'empty', 'void'],
@@ -401,9 +402,8 @@ def gen_scripted(rng, repo, sizes):
                 'desc': rng.choice(['scripted & <error>', '', 'a "q" \'s\' \t tab']), 'seed': 0}
     else:
         shape = rng.choice(shapes)
-        # pull instance results: PullInstances returns INSTANCE (no path), the ...WithPath family instances with path
-        if row['post'] == 'pullInsts':
-            shape = 'pull_nopath' if k == 'PullInstances' else 'pull_insts'
+        # mostly the conforming element kind (PullInstances: INSTANCE without path, the ...WithPath family with
+        # path, the ...Paths family INSTANCEPATH); the other kinds are near-miss answers the client must reject
         if row['post'] == 'assocObjects' and shape.startswith('assoc_'):
             pass
         spec = {'shape': shape, 'seed': rng.getrandbits(32), 'n': rng.choice([1, 1, 2, 3, 6]),
